@@ -400,7 +400,24 @@ pub fn bitcoin_scripts(rng: &mut Rng, n: usize) -> Vec<Vec<u8>> {
 
 /// hostile byte strings (C14): length 0..100 KB
 pub fn hostile(rng: &mut Rng) -> Vec<u8> {
-    match rng.below(12) {
+    match rng.below(14) {
+        12 => {
+            // very short scripts: every opcode alone, OP_RETURN / push opcodes with 0..2 following bytes
+            match rng.below(4) {
+                0 => vec![rng.next() as u8],
+                1 => vec![*rng.pick(&[0x6au8, 0x4c, 0x4d, 0x4e, 0x00, 0x01, 0x4b, 0x51, 0x60, 0xac, 0xae, 0xa9, 0x76, 0xff])],
+                2 => vec![*rng.pick(&[0x6au8, 0x00, 0x51, 0x76, 0xa9]), rng.next() as u8],
+                _ => vec![0x6a, *rng.pick(&[0x4cu8, 0x4d, 0x4e, 0x01, 0x02]), rng.next() as u8],
+            }
+        }
+        13 => {
+            // an otherwise canonical template whose data slot is hostile
+            let mut v = vec![0x76, 0xa9];
+            let l = *rng.pick(&[0usize, 1, 19, 21, 32, 75, 76, 255, 256, 520, 521, 10_000]);
+            v.extend(crate::ser::push(&rng.bytes(l)));
+            v.extend_from_slice(&[0x88, 0xac]);
+            v
+        }
         0 => {
             // truncated push of every width
             let mut v = match rng.below(4) {
